@@ -363,6 +363,10 @@ void World::feed_stdin(int node, uint64_t t, std::vector<uint8_t> bytes) {
 static void handler_done(World &w) {
     Node &n = w.cur_node();
     if (n.is_listener) {
+        int me = w.cur_node_id(), open_now = 0;
+        for (auto &e : w.fds) if (e.kind != FdEnt::FREE && e.node == me) open_now++;
+        if (n.fds_first < 0) { n.fds_first = open_now; n.heap_first = n.heap_live; }
+        else if (open_now > n.fds_first + 8 && w.hooks.on_fd_growth) w.hooks.on_fd_growth(w, me, open_now, n.fds_first);
         uint64_t sp = (uint64_t)(uintptr_t)__builtin_frame_address(0);
         if (!n.sp_first) n.sp_first = n.sp_low = sp;
         else if (sp + 1024 < n.sp_low) {
@@ -404,6 +408,43 @@ void __real_exit(int) __attribute__((noreturn));
 int __real_ioctl(int, unsigned long, void *);
 
 static inline bool in_sim() { return g_world && g_world->tasks.in_task(); }
+
+// ---- heap blocks obtained by the programs themselves (calls from code compiled from /repo), per node
+namespace {
+struct HeapEnt { uintptr_t p; uint32_t n; int16_t node; };
+constexpr size_t kHeapTab = 1 << 16;
+HeapEnt g_heap[kHeapTab];
+inline size_t heap_slot(uintptr_t p) { return (size_t)((p >> 4) * 0x9E3779B97F4A7C15ULL >> 48) & (kHeapTab - 1); }
+void heap_add(void *p, size_t n, uintptr_t pc) {
+    if (!p || !in_sim() || !sim::g_symtab.is_repo(pc)) return;
+    Node &nd = g_world->cur_node();
+    size_t s = heap_slot((uintptr_t)p);
+    for (size_t k = 0; k < kHeapTab; k++, s = (s + 1) & (kHeapTab - 1))
+        if (g_heap[s].p == 0 || g_heap[s].p == 1) { g_heap[s] = HeapEnt{(uintptr_t)p, (uint32_t)n, (int16_t)g_world->cur_node_id()}; break; }
+    nd.heap_live++; nd.heap_live_bytes += (int64_t)n; nd.heap_allocs++;
+}
+void heap_del(void *p) {
+    if (!p || !g_world) return;
+    size_t s = heap_slot((uintptr_t)p);
+    for (size_t k = 0; k < kHeapTab; k++, s = (s + 1) & (kHeapTab - 1)) {
+        if (g_heap[s].p == 0) return;
+        if (g_heap[s].p == (uintptr_t)p) {
+            Node &nd = g_world->nodes[g_heap[s].node];
+            nd.heap_live--; nd.heap_live_bytes -= g_heap[s].n;
+            g_heap[s].p = 1;  // tombstone
+            return;
+        }
+    }
+}
+}  // namespace
+void *__real_malloc(size_t);
+void *__real_calloc(size_t, size_t);
+void *__real_realloc(void *, size_t);
+void __real_free(void *);
+void *__wrap_malloc(size_t n) { void *p = __real_malloc(n); heap_add(p, n, (uintptr_t)__builtin_return_address(0)); return p; }
+void *__wrap_calloc(size_t a, size_t b) { void *p = __real_calloc(a, b); heap_add(p, a * b, (uintptr_t)__builtin_return_address(0)); return p; }
+void *__wrap_realloc(void *o, size_t n) { heap_del(o); void *p = __real_realloc(o, n); heap_add(p, n, (uintptr_t)__builtin_return_address(0)); return p; }
+void __wrap_free(void *p) { heap_del(p); __real_free(p); }
 
 int __wrap_socket(int domain, int type, int protocol) {
     if (!in_sim()) return __real_socket(domain, type, protocol);
